@@ -538,6 +538,13 @@ func PromoteOptionsToConstructor(selector Selector, optionNames []string) Rewrit
 					arg := optArg.DeepCopy()
 					arg.Type.Nullable = false
 
+					// the arguments of the constructor are told apart by their name
+					for _, existing := range builders[i].Constructor.Args {
+						if existing.Name == arg.Name {
+							return nil, fmt.Errorf("could not apply PromoteOptionsToConstructor builder veneer: option '%s' brings an argument called '%s', a name that the constructor of '%s' already gives to another argument", optName, arg.Name, builder.Name)
+						}
+					}
+
 					builders[i].Constructor.Args = append(builders[i].Constructor.Args, arg)
 				}
 				for _, assignment := range opt.Assignments {
